@@ -194,3 +194,128 @@ def gen_case(rng, macros=False, mutated=False):
     helo = rng.choice(['helo.example.org', 'a.example', ''])
     rhost = rng.choice(['', 'rh.example', 'a.example']) if helo else rng.choice(['rh.example', 'a.example'])
     return case(d, client, z, mailfrom=mf, helo=helo, rhost=rhost, heloname=rng.choice(['mx.local.example', 'h']))
+
+# ---- streams aimed at the case splits of the proofs
+def gen_limit_case(rng):
+    """records whose number of DNS querying terms sits around the limit: flat, nested by include, chained by redirect, cyclic"""
+    client = ip16(rng.choice(V4 + V6))
+    v4 = is_v4(client)
+    names = ['l%d.example' % i for i in range(14)]
+    z = []
+    dnsterm = lambda: rng.choice(['a', 'mx', 'a:b.example', 'exists:e.example', 'ptr', 'mx:c.example', '?a', '-mx'])
+    other = lambda: rng.choice(['ip4:10.9.8.7', 'ip6:2001:db8:ffff::1', 'foo=bar', 'ip4:10.0.0.0/8'])
+    shape = rng.choice(['flat', 'nest', 'chain', 'cycle', 'tree', 'tail'])
+    final = rng.choice(['-all', '+all', '?all', '~all', '', 'ip4:' + (iptext(client) if v4 else '1.2.3.4'), 'ip6:' + (iptext(client) if not v4 else '::1')])
+    if shape == 'flat':
+        n = rng.choice([8, 9, 10, 10, 11, 11, 12, 13])
+        ts = [dnsterm() for _ in range(n)]
+        for _ in range(rng.choice([0, 0, 1, 3])):
+            ts.insert(rng.randrange(len(ts) + 1), other())
+        z.append(txt(names[0], 'v=spf1 ' + ' '.join(ts) + (' ' + final if final else '')))
+    elif shape == 'nest':
+        depth = rng.choice([3, 5, 9, 10, 11, 12])
+        for i in range(depth):
+            pre = [dnsterm() for _ in range(rng.choice([0, 0, 1, 2]))]
+            post = [dnsterm() for _ in range(rng.choice([0, 0, 1, 2]))]
+            z.append(txt(names[i], 'v=spf1 ' + ' '.join(pre + ['include:' + names[i + 1]] + post + [final])))
+        z.append(txt(names[depth], 'v=spf1 ' + rng.choice(['-all', '+all', '?all', '', 'a', 'a a a'])))
+    elif shape == 'chain':
+        depth = rng.choice([3, 9, 10, 11, 12])
+        for i in range(depth):
+            pre = [dnsterm() for _ in range(rng.choice([0, 0, 1]))]
+            z.append(txt(names[i], 'v=spf1 ' + ' '.join(pre + ['redirect=' + names[i + 1]])))
+        z.append(txt(names[depth], 'v=spf1 ' + rng.choice(['-all', '+all', '?all', '', 'a'])))
+    elif shape == 'cycle':
+        k = rng.choice([1, 2, 3])
+        for i in range(k):
+            nxt = names[(i + 1) % k]
+            z.append(txt(names[i], 'v=spf1 ' + rng.choice(['include:%s', 'redirect=%s', 'a include:%s -all', 'include:%s include:%s -all', 'redirect=%s include:%s',
+                                                            '?include:%s redirect=%s exp=x.a.example']).replace('%s', nxt)))
+    elif shape == 'tree':
+        # every level includes an empty record and ends in a redirect: the shape that defeated the old counter
+        depth = rng.choice([4, 9, 10, 11])
+        for i in range(depth):
+            z.append(txt(names[i], 'v=spf1 redirect=r%d.example include:%s' % (i, names[i + 1])))
+            z.append(txt('r%d.example' % i, rng.choice(['v=spf1', 'v=spf1', 'v=spf1 ?all', 'v=spf1 -all'])))
+        z.append(txt(names[depth], 'v=spf1'))
+    else:
+        # limit reached exactly at the end of the record, then redirect
+        n = rng.choice([9, 10, 11])
+        z.append(txt(names[0], 'v=spf1 redirect=%s %s' % (names[1], ' '.join(dnsterm() for _ in range(n)))))
+        z.append(txt(names[1], rng.choice(['v=spf1', 'v=spf1 -all', 'v=spf1 a -all'])))
+    if rng.random() < 0.3:
+        z.append(txt('x.a.example', rng.choice(['because', 'no (really)', 'bad\x07bell'])))
+    if rng.random() < 0.5:
+        for nm in ['b.example', 'c.example', 'e.example'] + names[:2]:
+            if rng.random() < 0.3:
+                z.append((A if v4 else A6)(nm, rng.choice([client, ip16('1.2.3.9' if v4 else '2001:db8::9')])))
+            if rng.random() < 0.15:
+                z.append((Aerr if v4 else A6err)(nm, rng.randrange(1, 4)))
+            if rng.random() < 0.2:
+                z.append(MX(nm, (10, [rng.choice([client, ip16('1.2.3.9')])])))
+    if rng.random() < 0.3:
+        z.append(N(client, rng.choice(names[:2] + ['b.example'])))
+    rng.shuffle(z)
+    return case(names[0], client, z, rhost=rng.choice(['', 'rh.example']))
+
+MPIECES = ['%{', '}', '%%', '%_', '%-', '%', '.', '-', '+', ',', '/', '_', '=', 'r', 'R', '0', '1', '2', '3', '9', '10', '128', 'a', 'example', '.example', '.com', 'x', ' '] \
+    + list('slodiphcrtvSLODIPHCRTV') + ['q', '{', '%{d}', '%{i}', '%{l}', '%{o}', '%{s}', '%{h}', '%{p}', '%{v}', '%{ir}', '%{d2}', '%{l1r+}', '%{c}', '%{r}', '%{t}']
+
+def macro_string(rng):
+    if rng.random() < 0.55:
+        s = ''
+        for _ in range(rng.randrange(1, 4)):
+            s += rng.choice(['', 'a.', 'x-', 'foo.'])
+            s += '%{' + rng.choice('slodiphcrtvSLODIPHCRTV') + rng.choice(['', '', '1', '2', '3', '9', '10', '0', '00', '01', '99999999999']) + rng.choice(['', '', 'r']) \
+                + ''.join(rng.choice('.-+,/_=') for _ in range(rng.choice([0, 0, 0, 1, 2, 3]))) + '}'
+            s += rng.choice(['', '.', '.example', '._spf.example.com'])
+        return s
+    return ''.join(rng.choice(MPIECES) for _ in range(rng.randrange(1, 9)))
+
+def gen_macro_case(rng):
+    client = ip16(rng.choice(V4 + V6))
+    m = macro_string(rng)
+    z = []
+    if rng.random() < 0.5:
+        rec = 'v=spf1 ' + rng.choice(['a:', 'mx:', 'exists:', 'include:', 'ptr:', 'redirect=', 'foo=', 'exp=']) + m + rng.choice(['', '/24', ' -all', '//64 -all'])
+    else:
+        rec = 'v=spf1 -all exp=x.a.example'
+        z.append(txt('x.a.example', m))
+    z.append(txt('a.example', rec))
+    r = rng.random()
+    if r < 0.4:
+        z.append(N(client, *[rng.choice(['a.example', 'mail.a.example', 'b.example', 'x']) for _ in range(rng.randrange(1, 4))]))
+    elif r < 0.6:
+        z.append(Nerr(client, rng.randrange(1, 4)))
+    fam = A if is_v4(client) else A6
+    z.append(fam('a.example', client)); z.append(fam('mail.a.example', client))
+    mf = rng.choice(['user@a.example', '', 'first.last+tag-x=y_z,w/q@sub.a.example', 'a@b', '"quoted.local part"@a.example', 'x' * 64 + '@' + 'y.' * 100 + 'example',
+                     '.@.', 'a..b@c..d', 'UPPER.Case@A.Example', 'a%b@c.example', 'caf\xe9@a.example'])
+    helo = rng.choice(['helo.example.org', 'h', ''])
+    return case('a.example', client, z, mailfrom=mf, helo=helo, rhost=rng.choice(['rh.example', ''] if helo else ['rh.example']),
+                heloname=rng.choice(['mx.local.example', 'h.']))
+
+def gen_sanitise_case(rng):
+    """arbitrary bytes where the two sanitisers see them: in a token that is no term, and in the explanation"""
+    client = ip16(rng.choice(V4))
+    def junk(n, alphabet=None):
+        if alphabet is None:
+            return bytes(rng.choice([rng.randrange(1, 256), rng.randrange(1, 256), rng.choice(b'()\\%\x7f\x80\xff\x1f\x20\x21\x7e\t\r\n')]) for _ in range(n))
+        return bytes(rng.choice(alphabet) for _ in range(n))
+    z = []
+    if rng.random() < 0.5:
+        tok = bytes(b for b in junk(rng.randrange(1, 40)) if b not in (9, 10, 13, 32))
+        pre = rng.choice([b'', b'a ', b'?all ', b'ip4:10.0.0.1 ', b'include:b.example '])
+        post = rng.choice([b'', b' -all', b'  ', b'\t+all'])
+        z.append(txt('a.example', b'v=spf1 ' + pre + rng.choice([b'', b'-', b'+', b'x', b'foo', b'a(']) + tok + post))
+        z.append(txt('b.example', 'v=spf1 -all exp=x.a.example'))
+        z.append(txt('x.a.example', junk(rng.randrange(0, 30), bytes(range(1, 128)))))
+    else:
+        z.append(txt('a.example', rng.choice(['v=spf1 -all exp=x.a.example', 'v=spf1 include:b.example -all exp=x.a.example', 'v=spf1 exp=x.a.example -ip4:1.2.3.4 -ip4:10.0.0.1',
+                                              'v=spf1 redirect=b.example exp=x.a.example'])))
+        z.append(txt('b.example', rng.choice(['v=spf1 -all exp=x.b.example', 'v=spf1 ?all', 'v=spf1 -all'])))
+        hi = rng.random() < 0.25
+        z.append(txt('x.a.example', bytes(b for b in junk(rng.randrange(0, 60), None if hi else bytes(range(1, 128))) if b != 37 or rng.random() < 0.1)))
+        z.append(txt('x.b.example', junk(rng.randrange(0, 20), bytes(range(1, 128)))))
+    rng.shuffle(z)
+    return case('a.example', rng.choice([client, ip16('10.0.0.1')]), z)
